@@ -127,7 +127,9 @@ def run(F):
                 r.fail(iid, t["span"],
                        "%s binds the pair returned by %s to [%s, %s], but the callee returns [%s, %s]: vapor and liquid are exchanged" % (
                            fn, cb.path.split("::")[-1], bound[0], bound[1], pnames[0], pnames[1]))
-    r.floor("role-named destructurings of role-named returned pairs", n, 1)
+    # the consumers may legitimately disappear (`let pair = ..; pair.each_ref().map(..)`): the floor is on the producers; that the rule
+    # still fires on a swapped destructuring is checked by the corpus (seed C04f) in the thorough tier
+    r.floor("functions returning a [vapor, liquid]-named pair", len(prod), 1)
     r.inst("returnroles|producers", "-", "ok", producers=sorted(p.split("::")[-1] for p in prod), nontrivial=bool(prod))
     r.exhaustive = True
     return [r]
